@@ -159,6 +159,9 @@ fn load_units_from_dir(
 
     let files = match iterators::UnitFiles::new(source_path) {
         Ok(entries) => entries,
+        // a search directory that does not exist holds no units: that is not a failure
+        // (/etc/containers/systemd/users is searched by every user generator and rarely exists)
+        Err(RuntimeError::Io(_, e)) if e.kind() == io::ErrorKind::NotFound => return results,
         Err(e) => {
             results.push(Err(e));
             return results;
